@@ -482,3 +482,73 @@ Fixpoint run (s : st) (ops : list op) : st * list (res obs) :=
   end.
 
 Definition start (t : dtype) (c : compression) (sh : list Z) : st := mkSt (create t c sh) (Some RW).
+
+(** * Typed container routes (include/nix/Hydra.hpp, include/nix/hydra/multiArray.hpp, NDArray.hpp)
+
+    The templates DataSet::setData(value) / setData(value, offset) / getData(value) /
+    getData(value, count, offset) / getData(value, offset) build a (dtype, pointer, count, offset)
+    request from a container through [data_traits<C>]: its [shape] and its [resize] rule.  A route
+    only changes how the request is built; the request itself is one of the operations above.
+    The shape a container reports is its extents - whatever the element type. *)
+
+Inductive route :=
+| RScalar                      (* data_traits<T>: shape {}, "resize" accepts rank 0 or one element *)
+| RCArr1 (n : Z)               (* T[N] *)
+| RCArr2 (m n : Z)             (* T[M][N] *)
+| RVector                      (* std::vector<T> *)
+| RValarray                    (* std::valarray<T> *)
+| RMulti (k : nat)             (* boost::multi_array<T, k> *)
+| RNDArray.                    (* nix::NDArray *)
+
+(** Hydra<C>::shape() of a container with extents [ext] *)
+Definition route_shape (r : route) (ext : list Z) : list Z :=
+  match r with
+  | RScalar => []
+  | _ => ext
+  end.
+
+Fixpoint list_Z_eqb (a b : list Z) : bool :=
+  match a, b with
+  | [], [] => true
+  | x :: a', y :: b' => (x =? y) && list_Z_eqb a' b'
+  | _, _ => false
+  end.
+
+(** data_traits<C>::resize(value, dims): the container's extents afterwards *)
+Definition route_resize (r : route) (dims : list Z) : res (list Z) :=
+  match r with
+  | RScalar => if Nat.eqb (List.length dims) 0 || (prod dims =? 1) then Ok [] else Err "nix::InvalidRank"%string
+  | RCArr1 n => if list_Z_eqb dims [n] then Ok [n] else Err "nix::InvalidRank"%string
+  | RCArr2 m n => if list_Z_eqb dims [m; n] then Ok [m; n] else Err "nix::InvalidRank"%string
+  | RVector =>
+      match dims with
+      | [] => Err "std::out_of_range"%string          (* dims[0] of an empty NDSize *)
+      | _ => bind (vector_size dims) (fun n => Ok [n])
+      end
+  | RValarray => match dims with [n] => Ok [n] | _ => Err "nix::InvalidRank"%string end
+  | RMulti k => if Nat.eqb (List.length dims) k then Ok dims else Err "nix::InvalidRank"%string
+  | RNDArray => Ok dims
+  end.
+
+Inductive treq :=
+| TSetAll (ext : list Z) (vals : list V)               (* setData(value) *)
+| TSet (ext off : list Z) (vals : list V)              (* setData(value, offset) *)
+| TGetAll                                              (* getData(value) *)
+| TGet (off cnt : list Z)                              (* getData(value, count, offset) *)
+| TGetAt (ext off : list Z).                           (* getData(value, offset) *)
+
+(** a scalar is one element per dimension of the offset (of the data for an empty offset) *)
+Definition scalar_count (cur off : list Z) : list Z :=
+  repeat 1 (match off with [] => List.length cur | _ => List.length off end).
+
+(** the request a typed call makes, given the array's current extent [cur] *)
+Definition route_op (r : route) (cur : list Z) (q : treq) : res op :=
+  match q with
+  | TSetAll ext vals => Ok (OWriteAll (route_shape r ext) vals)
+  | TSet ext off vals =>
+      Ok (OWrite off (match route_shape r ext with [] => scalar_count cur off | sh => sh end) vals)
+  | TGetAll => bind (route_resize r cur) (fun ext => Ok (ORead false None [] (route_shape r ext)))
+  | TGet off cnt => bind (route_resize r cnt) (fun _ => Ok (ORead false None off cnt))
+  | TGetAt ext off =>
+      Ok (ORead false None off (match route_shape r ext with [] => scalar_count cur off | sh => sh end))
+  end.
